@@ -845,7 +845,7 @@ def c09(r):
               "order of the model (%s) is forced on real goroutines through the blocking gate hook and the hook trace is folded through the "
               "protocol by Trace_Cache; every call sequence of length <= %d over an alphabet of 10 calls (3 years incl. a leap-11 year, month "
               "walking across years, two invalid calls that panic and are recovered) is executed in one process and each result compared with "
-              "its reference; each of 16 calls is also made as the very first library call of a fresh process and compared with itself warm; fresh processes make the first use of every accessor from 16 goroutines released together at a barrier and compare with the single-goroutine values (a runtime abort 'concurrent map ...' whose innermost non-runtime frame is library code is a rejection); a battery of 15 000 table lookups and conversions is executed by four processes in four different orders and their per-family digests must agree; a -race build runs 16 goroutines of mixed calls plus rounds of 8 goroutines reading one fresh shared object, "
+              "its reference; each of 18 calls is also made as the very first library call of a fresh process and compared with itself warm; fresh processes make the first use of every accessor from 16 goroutines released together at a barrier and compare with the single-goroutine values (a runtime abort 'concurrent map ...' whose innermost non-runtime frame is library code is a rejection); a battery of 15 000 table lookups and conversions is executed by four processes in four different orders and their per-family digests must agree; a -race build runs 16 goroutines of mixed calls plus rounds of 8 goroutines reading one fresh shared object, "
               "race reports become events that no action accepts. Every public non-setter method of 21 object types is called twice on sample "
               "objects with a digest of all accessors of the receiver before and after (a call must not change its receiver and must repeat its "
               "result); one letter of the history alphabet writes garbage through every setter of every object the accessors hand out (holiday records included), and every sample object must read the same after every setter of every object it handed out was called. Session.tla specifies the whole mutable state a client can see (date objects with "
@@ -877,8 +877,8 @@ def c09(r):
     r.validate("Trace_Cache", ch_s)
     ch_h = r.drive("c09hist", args={"len": 5 if thorough else 4}, maxlines=4000)
     r.validate("Trace_Cache", ch_h)
-    # cold start: each of 16 calls as the very first library call of its own process, then again warm
-    ch_c = r.drive("c09cold", maxlines=0, shards=16)
+    # cold start: each of 18 calls as the very first library call of its own process, then again warm
+    ch_c = r.drive("c09cold", maxlines=0, shards=18)
     r.validate("Trace_Cache", ch_c)
     # first use by many goroutines at once: fresh processes, goroutines released together before every accessor
     ch_f1 = r.drive("c09first", maxlines=0, shards=16 if thorough else 8, args={"g": 16})
@@ -888,6 +888,17 @@ def c09(r):
             e["rows"][3][1] = "0" * 16
             return True
         r.negctl("Trace_Cache", ch_f1[0], {"C09First": [(first_mut, "C09.result.independent-of-concurrent-first-use")]}, per_kind=1)
+    # probes, recovered panics (incl. a fix-up whose name list is too short), the same probes again, each with a deadline
+    ch_b = r.drive("c09block", maxlines=0, shards=1)
+    r.validate("Trace_Cache", ch_b)
+    def blk_mut(e):
+        e["rows"][0][3] = 1
+        return True
+    def blk_res(e):
+        e["rows"][2][2] = "0" * 12
+        return True
+    r.negctl("Trace_Cache", ch_b[0], {"C09Block": [(blk_mut, "C09.blocked-after-a-recovered-panic")]}, per_kind=1)
+    r.negctl("Trace_Cache", ch_b[0], {"C09Block": [(blk_res, "C09.result.independent-of-history")]}, per_kind=1)
     # the same battery in four processes, four orders; the plan only ASSEMBLES their reports into one event for TLC
     ch_o = r.drive("c09orders", maxlines=0, shards=4)
     procs = []
